@@ -391,6 +391,47 @@ def gen_v1_alias_first_use(rng, k):
                 plans=('setup-lines', 'multi'), n_multi=20)
 
 
+def gen_lazy_module_first_use(rng, k):
+    """optional third-party modules the library imports lazily on first need (utils/lazy_loader.py: pytimeparse for duration
+    strings, tomli_w for to_toml, yaml for YAML): the threads start in a process in which the module has NOT been imported
+    (the child drops it from sys.modules and resets the library's LazyLoader objects) and both need it at once.  Schedules:
+    a pre-emption at the line events INSIDE the import (the module's own top-level code) and inside lazy_loader.py; a thread
+    that then blocks on the module's import lock is set aside by the scheduler.  An error such as AttributeError 'partially
+    initialized module' is one no sequential order produces."""
+    which = ['pytimeparse', 'tomli_w', 'pytimeparse-v1', 'yaml'][k % 4]
+    used = set()
+    f1, f2 = _fname(rng, used), _fname(rng, used)
+    src = PRELUDE
+    pre = []
+    if which.startswith('pytimeparse'):
+        v1 = '    class _(JSONWizard.Meta):\n        v1 = True\n' if which.endswith('v1') else ''
+        shape = rng.choice(['timedelta', 'Optional[timedelta]', 'list[timedelta]'])
+        src += f'\n@dataclass\nclass T(JSONWizard):\n{v1}    {f1}: {shape}\n    {f2}: int = 0\n'
+        durs = rng.sample(['1h30m', '2 days', '45s', '1:30:00', '3 weeks 2 hours', '1.5 min', '4h'], 3)
+
+        def doc(d, i):
+            return f'{{"{f1}": {[d] if shape.startswith("list") else d!r}, "{f2}": {i}}}'
+        if rng.random() < 0.5:      # the class itself already in use (numeric durations need no parser)
+            pre = [f'T.from_dict({doc(90, 0)})']
+        threads = [f'T.from_dict({doc(durs[0], 1)})', f'fromdict(T, {doc(durs[1], 2)})']
+        post = [f'T.from_dict({doc(durs[2], 3)})']
+        mods = ['pytimeparse']
+    elif which == 'tomli_w':
+        src += f'\n@dataclass\nclass T(TOMLWizard):\n    {f1}: str\n    {f2}: int = 0\n'
+        threads = ['T("a", 1).to_toml()', 'T("b").to_toml()']
+        post = ['T("c", 3).to_toml()', f'T.from_toml("{f1} = \\"d\\"")']
+        mods = ['tomli_w']
+    else:
+        src += f'\n@dataclass\nclass T(YAMLWizard):\n    {f1}: str\n    {f2}: int = 0\n'
+        threads = [f'T.from_yaml("{f1}: a\\n{f2}: 1\\n")', 'T("b", 2).to_yaml()']
+        post = ['T("c", 3).to_yaml()']
+        mods = ['yaml']
+    if rng.random() < 0.5:
+        threads.reverse()
+    return dict(name=f'lazy-module-first-use-{which}', site=None, nfields=0, src=src, pre=pre, threads=threads, post=post,
+                fresh_modules=mods, plans=('module-lines',))
+
+
 def _job(item):
     scn, plan, opcode, record = item
     return sched.run_case_in_child(scn, plan, opcode=opcode, record=record)
@@ -455,7 +496,7 @@ def table_plans(first_logs, nthr, rng, quick, cap):
 
 
 FAMILIES = [(gen_auto_tag_dump_vs_load, 2, 9), (gen_unrelated_classes_new_keys, 3, 12),
-            (gen_v1_alias_first_use, 2, 8)]
+            (gen_v1_alias_first_use, 2, 8), (gen_lazy_module_first_use, 3, 8)]
 
 
 def run(ctx: C.Ctx):
@@ -517,6 +558,21 @@ def run(ctx: C.Ctx):
                         ks.update((i + 1, i + 2))
                 for k in sorted(x for x in ks if 1 <= x <= len(first_logs[a])):
                     plans.append(('setup-lines', [(a, k)] + [(t, sched.INF) for t in others] + [(a, sched.INF)], False))
+        if 'module-lines' in kinds:
+            # the line events inside the lazily imported module's files and inside the lazy loader, of the thread running first
+            pref = sched.module_prefixes(scn.get('fresh_modules') or [])
+            for a in range(nthr):
+                others = [t for t in range(nthr) if t != a]
+                ks = [i + 1 for i, ev in enumerate(first_logs[a]) if ev[0].startswith(pref) or ev[0] == 'utils/lazy_loader.py']
+                ks = sorted({x for k in ks for x in (k, k + 1) if 1 <= x <= len(first_logs[a])})
+                cap = ctx.quick(160, 4000)
+                if len(ks) > cap:
+                    head = ks[:40]                      # the start of the import (module object just published) in full
+                    rest = ks[40:]
+                    ks = head + [rest[(j * len(rest)) // (cap - 40)] for j in range(cap - 40)]
+                ctx.notes.setdefault('module_line_points', {})[f'{scn["name"]}:{a}'] = len(ks)
+                for k in ks:
+                    plans.append(('module-lines', [(a, k)] + [(t, sched.INF) for t in others] + [(a, sched.INF)], False))
         if 'tables' in kinds:
             plans += table_plans(first_logs, nthr, rng, quick, ctx.quick(600, 20000))
         n_double = ctx.quick(60, 600) if 'multi' in kinds else 0
